@@ -49,9 +49,17 @@ def generate(ctx):
             d["dtype"] = "float32"
         else:
             d.update(trainer=tr.TRAINERS[(i // len(KINDS)) % len(tr.TRAINERS)], conn=rng.choice(["dense", "direct", "lateral", "conv"]),
-                     delay=rng.choice([None, 2]), T=rng.randint(5, 10), signs=rng.randrange(4), trace_mode=rng.choice(["cumulative", "nearest"]))
+                     delay=rng.choice([None, 2, 2]), T=rng.randint(5, 10), signs=rng.randrange(4), trace_mode=rng.choice(["cumulative", "nearest"]),
+                     delayed=rng.random() < 0.6)
             d["dtype"] = "float32"
         yield d
+    # delay-aware training on every connection type (the trainer reads per-synapse delayed presynaptic histories per sample)
+    for tname in ("STDP", "TripletSTDP", "MSTDP", "KernelSTDP"):
+        for conn in (["conv", "dense", "direct", "lateral"] if th else ["conv", rng.choice(["dense", "direct", "lateral"])]):
+            yield {"kind": "trainer", "B": rng.randint(2, 4), "dt": rng.choice([1.0, 0.5]), "T": rng.randint(6, 10),
+                   "seed": rng.randrange(1 << 30), "dtype": "float32", "resize_from": None, "warm": 0, "clear_at": None,
+                   "trainer": tname, "conn": conn, "delay": 2, "delayed": True, "signs": rng.randrange(4),
+                   "trace_mode": rng.choice(["cumulative", "nearest"])}
 
 
 def _np(t):
@@ -277,7 +285,8 @@ def _trainer(ctx, desc):
     B = desc["B"]
     from rv.monitors import c08
     a, b = c08.SIGNS[desc.get("signs", 0)]
-    hyper = {"lr_a": a, "lr_b": b, "trace_mode": desc.get("trace_mode", "cumulative")}
+    hyper = {"lr_a": a, "lr_b": b, "trace_mode": desc.get("trace_mode", "cumulative"),
+             "delayed": bool(desc.get("delayed")) and bool(desc["delay"])}      # the delay-aware mode of the trainers that have one
     hb = tr.Harness(desc["trainer"], desc["conn"], dt=desc["dt"], B=B, delay_steps=desc["delay"], seed=desc["seed"],
                     batch_reduction=torch.sum, hyper=hyper)
     hs = [tr.Harness(desc["trainer"], desc["conn"], dt=desc["dt"], B=1, delay_steps=desc["delay"], seed=desc["seed"],
@@ -291,7 +300,7 @@ def _trainer(ctx, desc):
         reward = torch.randn(B, generator=g)
         pb_, nb_ = hb.step_parts(pre, post, reward)
         ps = [h.step_parts(pre[b:b + 1], post[b:b + 1], reward[b:b + 1]) for b, h in enumerate(hs)]
-        ctx.case(f"trainer/{desc['trainer']}/{desc['conn']}/B{B}/delay{desc['delay']}/signs{desc.get('signs', 0)}")
+        ctx.case(f"trainer/{desc['trainer']}/{desc['conn']}/B{B}/delay{desc['delay']}{'T' if hyper['delayed'] else 'F'}/signs{desc.get('signs', 0)}")
         ctx.count("steps_checked")
         ctx.count("trainer_steps_checked")
         for name, whole, parts in (("potentiation", pb_, [p[0] for p in ps]), ("depression", nb_, [p[1] for p in ps])):
